@@ -198,7 +198,15 @@ def _run(cmd, timeout, mem_gb, out_path=None):
             f.close()
 
 
-def run_harness(meta, unwind, cap_s, mem_gb, workdir, extra_cbmc=()):
+DEFAULT_UNWINDSET = [
+    ("drop_glue::<[http::header::map::Bucket<", 3),      # header maps in harnesses hold <= 2 entries
+    ("drop_glue::<[http::header::map::ExtraValue<", 2),  # <= 1 extra value (repeated name)
+]
+
+
+def run_harness(meta, unwind, cap_s, mem_gb, workdir, extra_cbmc=(), unwindset=None):
+    if unwindset is None:
+        unwindset = DEFAULT_UNWINDSET
     """goto-cc/goto-instrument/cbmc exactly as kani-driver 0.68 runs them; returns a result dict."""
     name = meta["pretty_name"].split("::")[-1]
     t0 = time.time()
@@ -226,10 +234,28 @@ def run_harness(meta, unwind, cap_s, mem_gb, workdir, extra_cbmc=()):
                 res["reason"] = "%s failed (rc=%s): %s" % (s[0], rc, (out or "")[-500:])
                 return res
         uw = unwind if unwind is not None else meta["attributes"].get("unwind_value")
+        # per-loop bounds (checked by unwinding assertions): drop glue of header-map entry vectors etc.
+        uwset = []
+        if unwindset:
+            rc, out, to = _run(["cbmc", "--show-loops", work], 300, None)
+            cur = None
+            for line in (out or "").splitlines():
+                m = re.match(r"Loop (\S+):$", line)
+                if m:
+                    cur = m.group(1)
+                elif cur and line.startswith("  file "):
+                    for pat, n in unwindset:
+                        if pat in line:
+                            uwset.append("%s:%d" % (cur, n))
+                            break
+                    cur = None
         cbmc = ["cbmc", "--no-malloc-may-fail", "--no-undefined-shift-check", "--no-signed-overflow-check", "--nan-check",
                 "--no-self-loops-to-assumptions", "--no-pointer-primitive-check", "--object-bits", "16"]
         if uw is not None:
             cbmc += ["--unwind", str(uw)]
+        if uwset:
+            cbmc += ["--unwindset", ",".join(uwset)]
+        res["unwindset"] = uwset
         cbmc += ["--sat-solver", "cadical", "--slice-formula"] + list(extra_cbmc) + [work, "--json-ui", "--verbosity", "6"]
         res["unwind"] = uw
         outp = os.path.join(workdir, name + ".cbmc.json")
@@ -275,6 +301,10 @@ def parse_cbmc_json(path, res, rc):
     res["solver_s"] = round(solver_s, 2)
     if results is None or status is None:
         res["reason"] = "cbmc gave no result list (rc=%s) %s" % (rc, "; ".join(res.get("errors", []))[:300])
+        return
+    nerr = sum(1 for r in results if r["status"] == "ERROR")
+    if status == "error" or nerr:
+        res["reason"] = "cbmc/solver error (%d checks with status ERROR): %s" % (nerr, "; ".join(res.get("errors", []))[:300])
         return
     reach = {}
     for r in results:
@@ -333,7 +363,8 @@ def run_all(metas, specs, workdir, jobs):
     order = sorted(metas, key=lambda n: -specs[n].get("cap_s", 240))
     with ThreadPoolExecutor(max_workers=jobs) as ex:
         futs = {n: ex.submit(run_harness, metas[n], specs[n].get("unwind"), specs[n].get("cap_s", 240),
-                             specs[n].get("mem_gb", 10), workdir, specs[n].get("extra_cbmc", ())) for n in order}
+                             specs[n].get("mem_gb", 10), workdir, specs[n].get("extra_cbmc", ()),
+                             specs[n].get("unwindset")) for n in order}
         for n, f in futs.items():
             try:
                 out[n] = f.result()
